@@ -81,16 +81,18 @@ OPEN_QUICK = ((1, 1, 1, 2), (2, 1, 0, 2))
 OPEN_THOROUGH = ((2, 1, 1, 2), (3, 2, 0, 3))
 
 
-def open_obls(prefix, quick=OPEN_QUICK, thorough=OPEN_THOROUGH):
+def open_obls(prefix, quick=OPEN_QUICK, thorough=OPEN_THOROUGH, strict_logopen=False, known=None):
     out = []
     for tier, tuples in (("quick", quick), ("thorough", thorough)):
         for (names, tables, recs, names2) in tuples:
             defs = {"VP_NAMES": names, "VP_TABLES": tables, "VP_RECS": recs, "VP_NAMES2": names2}
+            if strict_logopen:
+                defs["VP_STRICT_LOGOPEN"] = 1
             uw = {"ldb_recover.0": names + 1, "ldb_recover.1": names + 1, "ldb_recover_log_file.0": recs + 2,
                   "ldb_remove_obsolete_files.0": names2 + 1, "ldb_remove_obsolete_files.1": names2 + 1,
                   "ldb_destroy_internal.0": 2}
-            out.append(Obl("%s.open-names%d-tables%d-recs%d-gc%d" % (prefix, names, tables, recs, names2), "dbimpl/open.c",
-                           include_real=["db_impl.c"], kit=KIT, defs=defs,
+            out.append(Obl("%s.open-names%d-tables%d-recs%d-gc%d%s" % (prefix, names, tables, recs, names2, "-strict-logopen" if strict_logopen else ""), "dbimpl/open.c",
+                           include_real=["db_impl.c"], kit=KIT, defs=defs, known=known,
                            unwind=_unwind(names, recs, tables, names2), unwindset=uw,
                            tier=tier, timeout=900, flags=FLAGS, functions=OPEN_FUNCS,
                            desc="one real ldb_open(): new log number allocated after recovery, log created, edit names the current log (prev_log 0) and carries the recovered tables, applied before anything is removed, compaction scheduled last; every failure returns the error with *dbptr NULL, lock released iff taken, everything closed",
